@@ -819,6 +819,43 @@ def translate_biquad(lock):
     return "\n".join(out) + "\n", dict(biquad=vers.get("biquad"))
 
 
+# ================================================================ midi-types: f32::from(Value14)  (C18's pitch-bend scaling)
+def translate_value14(lock):
+    """Three one-line conversions chained by `.into()`.  They are matched against their exact shape (white space aside) and the
+    constants are taken from the text; any other shape is `untranslated`."""
+    vers = lock_versions(lock)
+    src = registry_src("midi-types", vers.get("midi-types"))
+    txt = re.sub(r"\s+", " ", strip_comments(open(os.path.join(src, "message.rs")).read()))
+    m1 = re.search(r"impl From<Value14> for u16 \{ fn from\(value: Value14\) -> u16 \{ \(value\.0 as u16\) \* (\d+) \+ value\.1 as u16 \} \}", txt)
+    m2 = re.search(r"impl From<Value14> for i16 \{ fn from\(value: Value14\) -> i16 \{ let v: u16 = value\.into\(\); \(v as i16\) - (\d+)i16 \} \}", txt)
+    m3 = re.search(r"impl From<Value14> for f32 \{ fn from\(value: Value14\) -> f32 \{ let v: i16 = value\.into\(\); let v = v as f32 / if v > 0 \{ ([\d.]+) \} else \{ ([\d.]+) \}; v\.clamp\((-?[\d.]+), (-?[\d.]+)\) \} \}", txt)
+    if not (m1 and m2 and m3):
+        raise Unsupported("midi-types: the Value14 -> u16 -> i16 -> f32 conversions have an unexpected shape: " + ", ".join(n for n, m in (("u16", m1), ("i16", m2), ("f32", m3)) if not m))
+    def fl(x):
+        neg = x.startswith("-")
+        x = x.lstrip("-").rstrip(".")
+        if "." in x:
+            a, b = x.split(".")
+            q = f"{int(a + b)} / {10 ** len(b)}"
+        else:
+            q = x
+        return f"(F32.neg (lit ({q})))" if neg else f"(lit ({q}))"
+    out = ["import SynthVerif.Src.Deps",
+           f"/-! GENERATED by tools/dep2lean.py from midi-types {vers.get('midi-types')} src/message.rs in the cargo registry.  Do not edit. -/",
+           "open F32 Rs", "namespace Dep.midi_types", "",
+           "/-- `u16::from(Value14(v0, v1))` -/",
+           f"def value14_to_u16 (v0 v1 : Nat) : Nat := v0 * {m1.group(1)} + v1", "",
+           "/-- `i16::from(Value14(v0, v1))` (no wrap for `v0, v1 ≤ 127`: the u16 is at most 16383) -/",
+           f"def value14_to_i16 (v0 v1 : Nat) : Int := (value14_to_u16 v0 v1 : Int) - {m2.group(1)}", "",
+           "/-- `f32::from(Value14(v0, v1))` -/",
+           "def value14_to_f32 (v0 v1 : Nat) : F32 :=",
+           "  let v := value14_to_i16 v0 v1",
+           f"  let x := F32.div (F32.ofInt v) (if v > 0 then {fl(m3.group(1))} else {fl(m3.group(2))})",
+           f"  F32.clamp x {fl(m3.group(3))} {fl(m3.group(4))}", "",
+           "end Dep.midi_types"]
+    return "\n".join(out) + "\n", dict(midi_types=vers.get("midi-types"))
+
+
 def write_one(outd, name, fn, lock):
     try:
         text, info = fn(lock)
@@ -838,7 +875,8 @@ def main():
     lock = sys.argv[1] if len(sys.argv) > 1 else os.path.join(ROOT, "harness", "Cargo.lock")
     outd = sys.argv[2] if len(sys.argv) > 2 else os.path.join(ROOT, "lean", "SynthVerif", "Gen", "Dep")
     os.makedirs(outd, exist_ok=True)
-    rep = dict(midi_convert=write_one(outd, "midi_convert", translate, lock), biquad=write_one(outd, "biquad", translate_biquad, lock))
+    rep = dict(midi_convert=write_one(outd, "midi_convert", translate, lock), biquad=write_one(outd, "biquad", translate_biquad, lock),
+               midi_types=write_one(outd, "midi_types", translate_value14, lock))
     json.dump(rep, open(os.path.join(outd, "report.json"), "w"), indent=1)
 
 
